@@ -994,8 +994,8 @@ def to_list(array):
         )
 
 
-_maybe_json_str = re.compile(r"^\s*(\[|\{|\"|[0-9]|true|false|null)")
-_maybe_json_bytes = re.compile(br"^\s*(\[|\{|\"|[0-9]|true|false|null)")
+_maybe_json_str = re.compile(r"^\s*(\[|\{|\"|-?[0-9]|true|false|null)")
+_maybe_json_bytes = re.compile(br"^\s*(\[|\{|\"|-?[0-9]|true|false|null)")
 
 
 def from_json(
@@ -1068,8 +1068,9 @@ def from_json(
             buffersize=buffersize,
         )
     elif not is_path and (
-        (isinstance(source, bytes) and _maybe_json_bytes.match(source))
-        or _maybe_json_str.match(source)
+        _maybe_json_bytes.match(source)
+        if isinstance(source, bytes)
+        else _maybe_json_str.match(source)
     ):
         layout = ak._ext.fromjson(
             source,
